@@ -33,6 +33,21 @@ fn main() {
         "replay" => cmd_replay(&args),
         "diff" => cmd_diff(&args),
         "dump" => cmd_dump(&args),
+        "hash-replay" => {
+            let text = std::fs::read_to_string(&args[2]).expect("read");
+            let v: serde_json::Value = serde_json::from_str(&text).expect("json");
+            let scn: Scenario = serde_json::from_value(v["scenario"].clone()).expect("scenario");
+            let schedule: Vec<u16> = serde_json::from_value(v["schedule"].clone()).expect("schedule");
+            let scn = Arc::new(scn);
+            let (r, diverged) = explore::run_schedule(&scn, &schedule);
+            if diverged || r.error.is_some() {
+                println!("DIVERGED");
+            } else {
+                let ct = explore::canon(&r.trace, &r.raw_ids);
+                let h = if scn.has_tag("feature_neutral") { explore::hash_trace(&explore::feature_neutral(&ct)) } else { explore::hash_trace(&ct) };
+                println!("HASH {h:016x}");
+            }
+        }
         "list" => {
             let prop = arg(&args, "--prop").expect("--prop");
             let thorough = arg(&args, "--tier").as_deref() == Some("thorough");
